@@ -386,7 +386,7 @@ def check_C18(chk, tier):
     for prec in ["d", "s", "z", "c"]:
         mach = {"d": "dmach.c", "z": "dmach.c", "s": "smach.c", "c": "smach.c"}[prec]
         for r, (nm, srcs) in C18_ROUTINES.items():
-            if tier == "quick" and prec != "d" and r not in (1, 2, 3): continue     # quick: the three drivers in every precision, the other routines in double
+            if tier == "quick" and prec != "d" and r in (7, 8, 9) and prec != "c": continue     # quick: drivers, ?gstrs, ?gsrfs, ?gscon in every precision; ?gsequ and the sparse BLAS in double and single complex
             src = [E1H + "h18.c", REPO + "/SRC/util.c", REPO + "/SRC/" + mach] + [REPO + "/SRC/" + s_.format(p=prec) for s_ in srcs]
             hs.append(e1.Harness("c18_%s_%s" % (prec, nm), src, defs=["-DPREC_" + prec.upper(), "-DROUTINE=%d" % r], unwind=3, unwindset={"same_bytes.0": 100}, timeout=900))
     e1.run_harnesses(chk, hs, "C18 argument screening", "n <= 2, nrhs <= 2, lda <= 3, every enum/tag/dimension/lwork/equed/scale-factor corruption; unwind 3 (all loops bounded by n <= 2)")
